@@ -161,6 +161,17 @@ func exprStr(x ast.Expr) string { return types.ExprString(x) }
 // recvValue evaluates a method receiver, taking its address when the method
 // has a pointer receiver and the operand is an addressable value.
 func (fv *FV) recvValue(e *Env, x ast.Expr, fn *types.Func) Value {
+	xt := fv.typeOf(x)
+	if sig, ok := fn.Type().(*types.Signature); ok && sig.Recv() != nil && xt != nil {
+		if _, ptrRecv := sig.Recv().Type().Underlying().(*types.Pointer); ptrRecv {
+			if _, isPtr := xt.Underlying().(*types.Pointer); !isPtr && !isObjectType(xt) {
+				if _, isIface := xt.Underlying().(*types.Interface); !isIface {
+					// x.m() with pointer receiver on an addressable value: (&x).m()
+					return fv.addrOf(e, x, sig.Recv().Type())
+				}
+			}
+		}
+	}
 	return fv.expr(e, x) // object values are represented by their address
 }
 
@@ -761,6 +772,10 @@ func (fv *FV) havocLocation(e, pre *Env, cl *Clause, bind map[types.Object]Value
 			} else {
 				fv.havocCell(e, l.comp, l.typ, l.ref)
 			}
+		case "comp":
+			for _, c := range cellComps(l.comp, l.typ) {
+				fv.havocComp(e, c)
+			}
 		case "elems":
 			fv.havocSliceElems(e, l.slice, l.typ)
 		case "map":
@@ -793,6 +808,16 @@ func (fv *FV) modLocations(pre *Env, cl *Clause, bind map[types.Object]Value) []
 	if t == nil {
 		return []modLoc{{kind: "all"}}
 	}
+	if call, ok := x.(*ast.CallExpr); ok {
+		if fn, _, _ := fv.calleeOf(call); fn != nil && fn.Name() == "gh_anyOf" && len(call.Args) == 1 {
+			// modifies anyOf(x.f): field f of any object (whole component)
+			lv := fv.lvalue(pre, call.Args[0])
+			if lv.kind == lvCell {
+				return []modLoc{{kind: "comp", comp: lv.comp, typ: lv.typ}}
+			}
+			return []modLoc{{kind: "all"}}
+		}
+	}
 	if fv.isGhostMapExpr(x) {
 		lv := fv.lvalue(pre, x)
 		if lv.kind == lvCell && len(lv.idx) == 1 {
@@ -809,7 +834,15 @@ func (fv *FV) modLocations(pre *Env, cl *Clause, bind map[types.Object]Value) []
 	case *types.Slice:
 		v := fv.expr(pre, x)
 		if v.K == kSlice {
-			return []modLoc{{kind: "elems", slice: v, typ: u.Elem()}}
+			out := []modLoc{{kind: "elems", slice: v, typ: u.Elem()}}
+			// a slice-typed location (field, *p): the header may change as well
+			switch ast.Unparen(x).(type) {
+			case *ast.SelectorExpr, *ast.StarExpr:
+				if lv := fv.lvalue(pre, x); lv.kind == lvCell && len(lv.idx) == 1 {
+					out = append(out, modLoc{kind: "cell", comp: lv.comp, ref: lv.idx[0], typ: lv.typ})
+				}
+			}
+			return out
 		}
 	case *types.Map:
 		v := fv.expr(pre, x)
@@ -948,9 +981,8 @@ func (fv *FV) ghostBuiltin(e *Env, x *ast.CallExpr, fn *types.Func) Value {
 				binders = append(binders, fmt.Sprintf("(%s %s)", qn, s))
 				nb[obj] = Value{K: kScalar, T: Term{qn, s}, Type: obj.Type()}
 				// named (non-int) machine types keep their range: e.g. uint64 bound vars
-				if b, ok := obj.Type().(*types.Basic); ok && b.Kind() != types.Int {
-					guards = append(guards, rangeFact(Term{qn, s}, obj.Type()))
-				}
+				// bound variables of machine integer types range over all mathematical
+				// integers (both when a quantified fact is proved and when it is assumed)
 			}
 		}
 		fv.spec.bind = nb
@@ -1085,6 +1117,12 @@ func (fv *FV) ghostBuiltin(e *Env, x *ast.CallExpr, fn *types.Func) Value {
 	case "gh_errIs":
 		a, b := fv.expr(e, x.Args[0]), fv.expr(e, x.Args[1])
 		return Value{K: kScalar, T: fv.errIs(a.T, b.T)}
+	case "gh_sameRef":
+		a, b := fv.expr(e, x.Args[0]), fv.expr(e, x.Args[1])
+		return Value{K: kScalar, T: eq(a.T, b.T)}
+	case "gh_arrOf":
+		v := fv.expr(e, x.Args[0])
+		return Value{K: kScalar, T: v.T, Type: rt}
 	case "gh_upd":
 		m := fv.expr(e, x.Args[0])
 		k := fv.expr(e, x.Args[1])
